@@ -271,6 +271,12 @@ def run(ctx):
                 tap = 1 if rng.random() < 0.4 else 0
                 ppn = rng.choice([q for q in (4, 2, 2, 1) if P % q == 0 or q == 4]) if tap else 4
                 c = dict(x); c.update(cid="i%d%s" % (x["k"], kind[0]), kind=kind, P=P, cuts=cuts, tap=tap, ppn=ppn)
+                if kind == "direct" and rng.random() < 0.5:
+                    # the distributed coarsenings label F points without strong connections NoNeighbors (-2).  Direct
+                    # interpolation treats the label like F; the other two routines deliberately ignore connections to such
+                    # points (as hypre does), which is outside the 0/1 splittings the property quantifies over
+                    has = set(i for (i, j) in x["mask"])
+                    c["states"] = [(-2 if (s_ == 0 and i not in has and rng.random() < 0.7) else s_) for i, s_ in enumerate(x["states"])]
                 c["line"] = impl_line(c); cases.append(c)
     l1lines = []
     if ctx.replay:
@@ -294,6 +300,7 @@ def run(ctx):
                 rk, nc = rank_of(c["states"])
                 c["Ppar_fine"] = raw
                 c["Ppar"] = [[(rk.get(j, -1 - j), v) for (j, v) in r] for r in raw]
+                c["pdim"] = [[int(x) for x in r] for r in split_ranks(get(ri, "PDIM") or [])]
             except Exception as e:
                 c["bad"] = "unreadable implementation output: %s" % e
     if l1lines: cases += level1_cases(ctx, l1lines)
@@ -336,6 +343,14 @@ def judge(ctx, c, rm):
     if mm:
         oracle(ctx, c, c["Pseq"], "seq")
         oracle(ctx, c, c["Ppar"], "par")
+    # dimensions of the distributed operator: one row per point, one column per coarse point, on every rank; local
+    # column counts add up to the global one
+    if c.get("pdim"):
+        ncoarse = sum(1 for s_ in c["states"] if s_ == 1)
+        if any(r[0] != c["n"] or r[1] != ncoarse for r in c["pdim"]) or sum(r[2] for r in c["pdim"]) != ncoarse:
+            ctx.signal("O", sig + ":dims", "distributed operator reports (global rows, global cols, local cols) %s for %d points, %d coarse points"
+                       % (c["pdim"], c["n"], ncoarse), case=c["line"])
+        if any(s_ == -2 for s_ in c["states"]): ctx.count("states_with_NoNeighbors")
     eq, why = rows_close(c["Pseq"], c["Ppar"], ordered=False) if mm else (True, "")
     if not eq:
         cause = ""
